@@ -418,9 +418,12 @@ def execute(cfg: dict, *, stop_at_first=True, trace=False) -> RunResult:
                 else:
                     sim.cfg.permanent_at = int(op["at"])
                     sim.cfg.permanent_exc = op.get("exc", "InjectedFault")
+                    sim.cfg.permanent_call = int(op.get("call", 1))
+                    sim.cfg.armed_calls = 0
                     out = oracle.capture(m.compute)
                     fired = not out.ok and out.exc_type == sim.cfg.permanent_exc
                     sim.cfg.permanent_at = None
+                    sim.cfg.armed_calls = 0
                     res.log.append(f"  compute_fault at={op['at']} -> {out.kind()}")
                     if fired:
                         counts["task_faults"] += 1
